@@ -23,6 +23,9 @@ CHECKS = {
  "C08": dict(level="exploration", technique="property-based testing (proptest): generated libraries and rename sites, WorkspaceEdit applied to an in-memory copy and judged by independent re-scan (link tables, content fingerprints)",
    text="For generated libraries, every link occurrence to an existing note as rename site and free / taken / sub-directory names: the returned edit is applied to a copy and re-scanned; old key gone, new key present, every link resolves where it must with acceptable text, link counts and content fingerprints unchanged, unrelated notes untouched, taken names refused.",
    note="Edit shapes understood: create, delete, full-range replace, insert at start.", ref="7/C08"),
+ "C10": dict(level="exploration", technique="property-based testing (proptest): generated notes, every offered conversion applied to a copy; token-sequence and link-sequence conservation, changed-region containment, and round-trip (inverse action requested on the edited text) oracles",
+   text="Every offered section-to-list, list-to-sections and change-list-type action of a generated note is resolved and applied: words and links keep their sequence, the changed lines stay inside the targeted part as an independent scan delimits it, change-type twice and section-list-section restore the formatted original.",
+   note="The note is normalised first. Round trips re-query the action after didChange.", ref="7/C10"),
  "C11": dict(level="exploration", technique="property-based testing over schedules: generated event lists with Advance(worker, point) steps; the harness owns the interleaving through the verif pause points; state-after-quiescence and per-request oracles",
    text="Schedules are generated values: every interleaving of the message loop with request workers at the granularity started / result computed / response sent / exited is reachable and replays exactly. Oracle: no notification handler panics or is skipped, the final state equals the last texts sent, requests after a notification see it.",
    note="Needs the verif hooks (cargo feature). Interleavings inside handlers are not explored.", ref="7/C11"),
